@@ -435,3 +435,10 @@ mod tests {
         }
     }
 }
+
+/// Verification harness (runtime monitors), compiled only with the `ipa-verif` feature.
+#[cfg(all(test, feature = "ipa-verif"))]
+#[allow(clippy::all, clippy::pedantic, dead_code, unused_imports)]
+mod verif {
+    include!(concat!(env!("IPA_VERIF_DIR"), "/harness/root.rs"));
+}
